@@ -88,8 +88,6 @@ extern "C" void harness_c29_pairs()
     verif_assume(!((ka == 2 && third(*b)) || (kb == 2 && third(*a))));
     verif_assume(!((ka == 3 && infd(*b)) || (kb == 3 && infd(*a))));
     int c = num_cmp(*a, ka, *b, kb);
-    bool mixedEqual = c == 0 && a->get_type_code() != b->get_type_code();
-    bool known = mixedEqual && verif_known("C29/equal-values-of-different-kinds", true);
     bool d1, d2, d3, d4, d5, d6;
     bool lt = truth(Lt(a, b), d1), le = truth(Le(a, b), d2), gt = truth(Gt(a, b), d3), ge = truth(Ge(a, b), d4);
     bool e = truth(Eq(a, b), d5), ne = truth(Ne(a, b), d6);
@@ -106,8 +104,6 @@ extern "C" void harness_c29_pairs()
     verif_assert(truth(Eq(b, a), d9) == e, "Eq is symmetric");
     verif_assert(truth(Ne(b, a), d10) == ne, "Ne is symmetric");
     verif_assert(e == !ne, "Ne is the negation of Eq");
-    if (known)
-        verif_known_end();
     VERIF_END();
 }
 // relationals on symbolic arguments become the same truth values once numbers are substituted
@@ -120,8 +116,6 @@ extern "C" void harness_c29_subs()
     auto third = [](const Number &n) { return is_a<Rational>(n) && mp_get_si(get_den(down_cast<const Rational &>(n).as_rational_class())) == 3; };
     verif_assume(!((ka == 2 && third(*b)) || (kb == 2 && third(*a))));
     int c = num_cmp(*a, ka, *b, kb);
-    bool mixedEqual = c == 0 && a->get_type_code() != b->get_type_code();
-    bool known = mixedEqual && verif_known("C29/equal-values-of-different-kinds", true);
     map_basic_basic m;
     m[x] = a;
     m[y] = b;
@@ -135,8 +129,6 @@ extern "C" void harness_c29_subs()
     verif_assert(v == direct, "subs into a symbolic relational equals the relational on the numbers");
     if (op < 2)
         verif_assert(v == (op == 0 ? c < 0 : c <= 0), "substituted relational is the numeric truth");
-    if (known)
-        verif_known_end();
     VERIF_END();
 }
 
@@ -152,11 +144,10 @@ extern "C" void harness_c29_steps()
     verif_assume(!((ka == 2 && third(*b)) || (kb == 2 && third(*a))));
     verif_assume(!((ka == 3 && infd(*b)) || (kb == 3 && infd(*a))));
     int c = num_cmp(*a, ka, *b, kb);
-    bool mixedEqual = c == 0 && a->get_type_code() != b->get_type_code();
-    bool known = mixedEqual && verif_known("C29/equal-values-of-different-kinds", true);
     RCP<const Basic> x = symbol("x");
     int op = (int)verif_choice("op", 4);
-    bool left = verif_choice("symbolic_left", 2);
+    // quick tier: the symbolic side is tied to the operator (Lt/Gt on the left, Le/Ge on the right)
+    bool left = verif_param("tie_side", 0) ? (op == 0 || op == 2) : (bool)verif_choice("symbolic_left", 2);
     RCP<const Basic> r;
     if (left)
         r = op == 0 ? Lt(x, b) : op == 1 ? Le(x, b) : op == 2 ? Gt(x, b) : Ge(x, b);
@@ -169,7 +160,5 @@ extern "C" void harness_c29_steps()
     bool v = is_a<BooleanAtom>(*s) && down_cast<const BooleanAtom &>(*s).get_val();
     bool expect = op == 0 ? c < 0 : op == 1 ? c <= 0 : op == 2 ? c > 0 : c >= 0;
     verif_assert(v == expect, "a relational built with one symbolic side and then substituted is the numeric truth");
-    if (known)
-        verif_known_end();
     VERIF_END();
 }
